@@ -324,6 +324,14 @@ func c06WholeStreamCheck(r *core.R, cw string, f *c01Fn, lenContainer ast.Expr, 
 		case "ReadFull", "ReadAtLeast":
 			r.Unknown(cw, dr.Pos(), "`%s` reads a fixed number of bytes from the decompressor; whether the rest of the stream is checked is not modelled", src(fs, dr))
 			continue
+		case "CopyN":
+			// a copy of raw_size + c bytes (c >= 1) still lets the comparison see data that inflates beyond raw_size
+			if c06AboveRaw(info, f, dr.Args[2], isRaw) {
+				rd = dr.Args[1]
+				break
+			}
+			r.Bad(cw, dr.Pos(), "`%s` copies a limited number of bytes that is not provably above raw_size: the length compared with raw_size is not that of the whole decompressed stream, so data that inflates beyond raw_size is cut silently", src(fs, dr))
+			continue
 		default:
 			r.Bad(cw, dr.Pos(), "`%s` copies a limited number of bytes: the length compared with raw_size is not that of the whole decompressed stream, so data that inflates beyond raw_size is cut silently", src(fs, dr))
 			continue
@@ -338,4 +346,19 @@ func c06WholeStreamCheck(r *core.R, cw string, f *c01Fn, lenContainer ast.Expr, 
 			r.Unknown(cw, dr.Pos(), "`%s`: %s", src(fs, dr), why)
 		}
 	}
+}
+
+// c06AboveRaw: n is RAW + c with a constant c >= 1 (through locals defined once and conversions).
+func c06AboveRaw(info *types.Info, f *c01Fn, n ast.Expr, isRaw func(ast.Expr) bool) bool {
+	n = c01StripConv(info, c01Expand(info, f.body, c01StripConv(info, n)))
+	be, ok := n.(*ast.BinaryExpr)
+	if !ok || be.Op != token.ADD {
+		return false
+	}
+	for _, pr := range [][2]ast.Expr{{be.X, be.Y}, {be.Y, be.X}} {
+		if cv, okc := constInt(info, pr[1]); okc && cv >= 1 && isRaw(pr[0]) {
+			return true
+		}
+	}
+	return false
 }
